@@ -497,3 +497,34 @@ def r9(cx):
         cx.check(not bad, "after the write-set was taken every exit of commit() closes the transaction", "commit-failure-leaves-open", b.where(bad[0]) if bad else c.where(),
                  "Transaction::commit can return (with an error) after it moved the pending writes out of the transaction without closing it: the transaction stays usable with an "
                  "empty write-set -- its reads lose read-your-writes and a second commit() returns Ok(()) for writes that were never committed")
+
+
+@rule("C08", "C08.R10", "a time-travel read inside a transaction considers every pending version of the key")
+def r10(cx):
+    """The write-set keeps several entries per key when they carry different explicit timestamps, and commit() writes all of
+    them.  `get_at(key, T)` must therefore pick, among ALL pending versions of the key, the newest one with timestamp <= T;
+    looking only at the last issued entry gives an answer that changes when the transaction commits.  Decided: the
+    comparison of a pending entry's timestamp with the query timestamp is evaluated per entry -- it sits in a loop over the
+    key's entries or in a closure handed to an iterator over them."""
+    from ..core import comparisons
+    f = cx.f
+    b = f.body("Transaction::get_at")
+    tparam = [i for i in range(1, b.argc + 1) if b.local_name(i) == "timestamp"]
+    if not tparam:
+        tparam = [b.argc]
+    bodies = [b] + [c for c in f.closures_of(b)]
+    found = 0
+    per_entry = 0
+    for bb_ in bodies:
+        for cm in comparisons(bb_):
+            lo, ro = origin_of_operand(bb_, cm.lhs), origin_of_operand(bb_, cm.rhs)
+            ent = lambda o: any(nm == "timestamp" and own.endswith("Entry") for own, nm in o.fields)
+            qry = lambda o: any(p[0] in tparam for p in o.params) or "timestamp" in o.upvar_names
+            if (ent(lo) and qry(ro)) or (ent(ro) and qry(lo)):
+                found += 1
+                if bb_ is not b or b.in_cycle(cm.bb) or b.blocks[cm.bb].get("inl"):
+                    per_entry += 1
+    cx.floor("pending-timestamp vs query-timestamp comparisons in get_at", found, 1)
+    cx.check(per_entry >= 1, "get_at evaluates `entry.timestamp <= T` for every pending entry of the key", "get_at-last-pending-only", b.where(),
+             "Transaction::get_at compares only ONE pending entry (the last issued) with the query timestamp: with several pending versions of a key (explicit timestamps) the "
+             "time-travel read ignores an older pending version that is the right answer, or prefers an older one over a newer one that is also <= T; the answer changes at commit")
